@@ -17,8 +17,8 @@ PROP = dict(
          "executed; traces_validated_against_impl = histories executed",
     bounds=dict(quick="comp: k = 11 (1024 framings) x 5 letters x all configurations; pair: 40 granules, all ~1600 (p,f,tail) histories, light "
                       "configurations; iso: 2 instances x 20 interleavings all configurations, 3 instances x 1680 for every 2nd",
-                thorough="comp: k = 14 (8192 framings); pair: 96 granules (~9000 histories) for all configurations; iso: 3 instances for all"),
-    deadline=dict(quick=150, thorough=1500),
+                thorough="comp: k = 16 (32768 framings); pair: 128 granules (~16000 histories) for all configurations; iso: 3 instances for all"),
+    deadline=dict(quick=150, thorough=3000),
     passes=[dict(name="main", flags=["-fno-access-control"])],
     assumptions=COMMON_ASSUME,
 )
